@@ -18,12 +18,14 @@ import (
 	vs "github.com/emitter-io/emitter/internal/verifspec"
 )
 
-//@ assume (*github.com/emitter-io/emitter/internal/service/cluster.Swarm).Contains iface
-//@ assume (github.com/emitter-io/emitter/internal/security.Key).ValidateChannel iface
-//@ assume (*github.com/emitter-io/emitter/internal/service/keygen.Service).DecryptKey iface post=post_Decryptor_DecryptKey
-func post_Decryptor_DecryptKey(res0 security.Key, res1 error) bool { return res1 != nil || len(res0) == 24 }
+// @ assume (*github.com/emitter-io/emitter/internal/service/cluster.Swarm).Contains iface
+// @ assume (github.com/emitter-io/emitter/internal/security.Key).ValidateChannel iface
+// @ assume (*github.com/emitter-io/emitter/internal/service/keygen.Service).DecryptKey iface post=post_Decryptor_DecryptKey
+func post_Decryptor_DecryptKey(res0 security.Key, res1 error) bool {
+	return res1 != nil || len(res0) == 24
+}
 
-//@ assume (github.com/emitter-io/emitter/internal/provider/contract.Provider).Get iface post=post_Provider_Get
+// @ assume (github.com/emitter-io/emitter/internal/provider/contract.Provider).Get iface post=post_Provider_Get
 func post_Provider_Get(res0 contract.Contract, res1 bool) bool { return !res1 || res0 != nil }
 
 func pre_Authorize(s *Service, channel *security.Channel) bool {
@@ -36,7 +38,7 @@ func specExpired() bool {
 	return e >= 0 && !vs.TraceRetBool(e, 0) && b >= 0 && vs.TraceRetBool(b, 0)
 }
 
-//@ verify (*Service).Authorize pre=pre_Authorize post=post_Authorize_deny,post_Authorize_allow,post_Authorize_complete props=C03,C14
+// @ verify (*Service).Authorize pre=pre_Authorize post=post_Authorize_deny,post_Authorize_allow,post_Authorize_complete props=C03,C14
 func post_Authorize_deny(s *Service, res0 contract.Contract, res1 security.Key, res2 bool) bool {
 	return res2 || (res0 == nil && res1 == nil)
 }
@@ -91,8 +93,8 @@ func post_Authorize_complete(s *Service, channel *security.Channel, permission u
 
 // Close: one Unsubscribe for every subscription the bookkeeping reports (explored for up to two), the last will
 // exactly once and after them, then the socket is closed - whatever Unsubscribe and OnLastWill return.
-//@ verify (*Conn).Close pre=pre_Conn_Close post=post_Conn_Close props=C08
-//@ loop (*Conn).Close 0 unroll 2 bounded
+// @ verify (*Conn).Close pre=pre_Conn_Close post=post_Conn_Close props=C08
+// @ loop (*Conn).Close 0 unroll 2 bounded
 func pre_Conn_Close(c *Conn) bool {
 	return c != nil && c.service != nil && c.service.pubsub != nil && c.subs != nil && c.socket != nil
 }
@@ -109,17 +111,17 @@ func post_Conn_Close(c *Conn) bool {
 // messages with arbitrary field contents, and each one is handed to onPeerMessage on a goroutine that has no
 // recover above it. Safety contract: no panic for ANY message.
 
-//@ assume (*github.com/emitter-io/emitter/internal/message.Trie).Lookup iface pre=pre_Trie_Lookup_call post=post_Trie_Lookup_call
-func pre_Trie_Lookup_call(ssid message.Ssid) bool    { return len(ssid) >= 1 } // Lookup reads ssid[0] (its own contract: C09 in package message)
+// @ assume (*github.com/emitter-io/emitter/internal/message.Trie).Lookup iface pre=pre_Trie_Lookup_call post=post_Trie_Lookup_call
+func pre_Trie_Lookup_call(ssid message.Ssid) bool { return len(ssid) >= 1 } // Lookup reads ssid[0] (its own contract: C09 in package message)
 func post_Trie_Lookup_call(res0 message.Subscribers) bool {
 	return res0 != nil && vs.ForallKey(res0, func(k uint32) bool { return !vs.Has(res0, k) || res0[k] != nil })
 }
 
-//@ assume (github.com/emitter-io/emitter/internal/provider/contract.Contract).Stats iface post=post_Contract_Stats
+// @ assume (github.com/emitter-io/emitter/internal/provider/contract.Contract).Stats iface post=post_Contract_Stats
 func post_Contract_Stats(res0 usage.Meter) bool { return res0 != nil }
 
-//@ verify (*Service).onPeerMessage pre=pre_onPeerMessage props=C09
-//@ loop (*Service).onPeerMessage 0 unroll 2 bounded
+// @ verify (*Service).onPeerMessage pre=pre_onPeerMessage props=C09
+// @ loop (*Service).onPeerMessage 0 unroll 2 bounded
 func pre_onPeerMessage(s *Service, m *message.Message) bool {
 	return s != nil && m != nil && s.subscriptions != nil && s.contracts != nil && s.measurer != nil
 }
@@ -136,7 +138,7 @@ func pre_Notify(s *Service, sub message.Subscriber, ev *event.Subscription) bool
 	return s != nil && sub != nil && ev != nil && s.presence != nil
 }
 
-//@ verify (*Service).NotifySubscribe pre=pre_Notify post=post_NotifySubscribe props=C18
+// @ verify (*Service).NotifySubscribe pre=pre_Notify post=post_NotifySubscribe props=C18
 func post_NotifySubscribe(s *Service, sub message.Subscriber, ev *event.Subscription) bool {
 	direct := sub.Type() == message.SubscriberDirect
 	n := vs.TraceFind("presence.Service).Notify")
@@ -147,7 +149,7 @@ func post_NotifySubscribe(s *Service, sub message.Subscriber, ev *event.Subscrip
 		vs.TraceArg[*event.Subscription](n, 2) == ev
 }
 
-//@ verify (*Service).NotifyUnsubscribe pre=pre_Notify post=post_NotifyUnsubscribe props=C18
+// @ verify (*Service).NotifyUnsubscribe pre=pre_Notify post=post_NotifyUnsubscribe props=C18
 func post_NotifyUnsubscribe(s *Service, sub message.Subscriber, ev *event.Subscription) bool {
 	n := vs.TraceFind("presence.Service).Notify")
 	one := n >= 0 && vs.TraceCount("presence.Service).Notify") == 1 && vs.TraceArg[presence.EventType](n, 1) == presence.EventTypeUnsubscribe &&
